@@ -69,6 +69,11 @@ def run(chk, repo, tier):
     P1 = chk.rule('P1', 'multiplicity (xn) symmetry between readers and writers of theta/omega records', floor=6)
     P2 = chk.rule('P2', 'FIX token synchronisation idiom: under new != old, insert iff new', floor=4)
     P3 = chk.rule('P3', 'no comparison of a tree node (find/subtree result) with a numeric bound', floor=2)
+    P4 = chk.rule('P4', 'new $THETA text: the form chosen for each (lower, upper) finiteness combination is one the '
+                        'reader interprets with the same roles ((low,init,up) needs a low slot whenever up is written)',
+                  floor=4)
+    P5 = chk.rule('P5', 'FIX is removed wherever the reader looks for it (recursively inside omega items for blocks)',
+                  floor=1)
     A5 = chk.rule('A5', 'LALR-accepted token sentences are accepted by lexer+parser when spelled out', floor=200)
 
     tm = repo.module(f'{NM}.records.theta_record')
@@ -200,5 +205,71 @@ def run(chk, repo, tier):
                     chk.instance(P3, f'{cls.name}.{mname}: {unparse(n)}')
     if n3 < 2:
         raise AnalysisError('P3: no node comparisons found in the record classes')
+    # ---------------------------------------------------------------- P4
+    um = repo.module(f'{NM}.update')
+    ct = um.functions.get('create_theta_record')
+    if ct is None:
+        raise AnalysisError('create_theta_record not found')
+
+    def choose(stmts, env, out):
+        for s_ in stmts:
+            if isinstance(s_, ast.If):
+                t = s_.test
+                v = None
+                if isinstance(t, ast.Compare) and isinstance(t.left, ast.Name) and t.left.id in env \
+                        and len(t.ops) == 1:
+                    try:
+                        c = eval(compile(ast.Expression(t.comparators[0]), '<c>', 'eval'), {'__builtins__': {}}, {})
+                        x = env[t.left.id]
+                        v = {ast.Lt: x < c, ast.LtE: x <= c, ast.Gt: x > c, ast.GtE: x >= c, ast.Eq: x == c,
+                             ast.NotEq: x != c}[type(t.ops[0])]
+                    except Exception:
+                        v = None
+                if v is True:
+                    choose(s_.body, env, out)
+                elif v is False:
+                    choose(s_.orelse, env, out)
+                continue
+            if isinstance(s_, ast.AugAssign) and unparse(s_.target) == 'code':
+                out.append(s_.value)
+    combos = {'both finite': {'lower': 0.5, 'upper': 5.0}, 'only lower': {'lower': 0.5, 'upper': float('inf')},
+              'only upper': {'lower': -float('inf'), 'upper': 5.0}, 'none': {'lower': -float('inf'), 'upper': float('inf')}}
+    for label, env in combos.items():
+        parts = []
+        choose(ct.node.body, env, parts)
+        forms = [p_ for p_ in parts if isinstance(p_, ast.JoinedStr) and any(
+            isinstance(v, ast.FormattedValue) and unparse(v.value) == 'init' for v in p_.values)]
+        if len(forms) != 1:
+            raise AnalysisError(f'P4: cannot determine the theta text template for the case `{label}` '
+                                f'(found {[unparse(p_) for p_ in parts]})')
+        tpl = ''.join(v.value if isinstance(v, ast.Constant) else '{' + unparse(v.value) + '}' for v in forms[0].values)
+        slots = tpl.strip('()').split(',') if tpl.startswith('(') else [tpl]
+        chk.instance(P4, f'{label}: {tpl}')
+        want = {'both finite': ['{lower}', '{init}', '{upper}'], 'only lower': ['{lower}', '{init}'],
+                'only upper': ['-INF', '{init}', '{upper}'], 'none': ['{init}']}[label]
+        if [x.strip().upper() if x.strip().startswith('-') else x.strip() for x in slots] != want:
+            chk.violation(P4, um.rel, 'create_theta_record', f'{label}: {tpl}',
+                          f'a new theta with {label} bound(s) must be written as {"(" + ",".join(want) + ")" if len(want) > 1 else want[0]}: '
+                          f'the reader assigns roles by position (first of two = lower bound)', line=forms[0].lineno,
+                          witness='add_population_parameter(model, "P", 0.3, upper=1): the code says (0.3,1) which is re-read '
+                                  'as lower=0.3, init=1, upper=inf')
+    # ---------------------------------------------------------------- P5
+    bf = orr.methods.get('_block_flags')
+    upd = orr.methods.get('update')
+    reader_recursive = bf is not None and any(isinstance(n, ast.For) and "subtrees('omega')" in unparse(n.iter)
+                                              and "find('FIX')" in unparse(n) for n in ast.walk(bf.node))
+    block_removals = [c for c in ast.walk(upd.node) if isinstance(c, ast.Call) and dotted(c.func) == 'remove_token_and_space'
+                      and c.args and unparse(c.args[0]) == 'tree' and "'FIX'" in unparse(c)]
+    if not block_removals:
+        raise AnalysisError('P5: FIX removal of the block branch not found')
+    for c in block_removals:
+        rec = any(kw.arg == 'recursive' and isinstance(kw.value, ast.Constant) and kw.value.value is True for kw in c.keywords)
+        chk.instance(P5, f'{unparse(c)} (reader looks inside omega items: {reader_recursive})')
+        if reader_recursive and not rec:
+            chk.violation(P5, om.rel, 'OmegaRecord.update', unparse(c),
+                          '_block_flags finds FIX inside the omega items of a block, but unfixing removes only a top level '
+                          'FIX token', line=c.lineno,
+                          witness='$OMEGA BLOCK(2) 0.1 0.01 0.3 FIX + unfix_parameters: the generated code keeps FIX, re-read '
+                                  'parameters are fixed while the model says they are not')
     # ---------------------------------------------------------------- A5
     run_a5(chk, A5, ['theta_record.lark', 'omega_record.lark'])
